@@ -146,6 +146,8 @@ type Unit struct {
 	Env      []string // extra environment for the tool (nil: sanitised)
 	Previous string   // content already at the -o path before the run ("" = the path does not exist)
 	Prior    *Prior   // a run of the tool executed first, over the same -o path and in the same directory (nil: none)
+	Piped    []int    // indexes into Files: these inputs are named pipes fed by the harness while the tool runs
+	PipeSeen []bool   // per Piped entry: the tool opened the pipe and everything was written
 
 	Run        cli.Run
 	Accepted   bool
@@ -294,9 +296,27 @@ func (l *Lab) Generate(units []*Unit, workers int) {
 func (l *Lab) generate(u *Unit) {
 	cwd := filepath.Join(l.W.Dir, "t", u.ID+suffix(u), "in")
 	_ = os.MkdirAll(cwd, 0o755)
-	for _, f := range u.Files {
+	piped := map[int]bool{}
+	for _, k := range u.Piped {
+		piped[k] = true
+	}
+	var pipes []*work.Fifo
+	for k, f := range u.Files {
+		if piped[k] {
+			_ = os.MkdirAll(filepath.Dir(filepath.Join(cwd, f.Name)), 0o755)
+			if p, err := work.FeedFifo(filepath.Join(cwd, f.Name), []byte(f.Content)); err == nil {
+				pipes = append(pipes, p)
+				continue
+			}
+		}
 		_ = work.WriteFile(filepath.Join(cwd, f.Name), []byte(f.Content))
 	}
+	defer func() {
+		for _, p := range pipes {
+			o, c := p.Stop()
+			u.PipeSeen = append(u.PipeSeen, o && c)
+		}
+	}()
 	dir := l.unitDir(u)
 	_ = os.MkdirAll(dir, 0o755)
 	out := filepath.Join(dir, "gen.go")
